@@ -104,6 +104,34 @@ fn main() {
     }
 
     let mut report = props::run(&ctx);
+    // Replay tier: curated minimal cases of defects that were repaired (see known_findings.json);
+    // they bypass the generators, so a returning defect is reported deterministically.
+    if let Ok(rd) = std::fs::read_dir(verif_root().join("regress")) {
+        let mut files: Vec<_> = rd.filter_map(|e| e.ok()).map(|e| e.path()).filter(|p| p.file_name().and_then(|n| n.to_str()).map(|n| n.starts_with(id) && n.ends_with(".replay")).unwrap_or(false)).collect();
+        files.sort();
+        for f in files {
+            let Ok(map) = read_replay(f.to_str().unwrap()) else { continue };
+            report.result.stats.eval(1);
+            report.result.stats.count("regression-replays", 1);
+            let r = std::panic::catch_unwind(|| props::replay(id, &map));
+            let fail = match r {
+                Ok(Ok(())) => None,
+                Ok(Err(f)) => Some(f),
+                Err(p) => Some(Failure::new("panic-in-replay", panic_text(p))),
+            };
+            if let Some(mut fl) = fail {
+                fl.msg = format!("regression case {} fails again: {}", f.display(), fl.msg);
+                if fl.replay.is_empty() {
+                    for (k, v) in &map {
+                        if k != "property" && k != "signature" {
+                            fl.replay.push((k.clone(), v.clone()));
+                        }
+                    }
+                }
+                report.result.failures.push(fl);
+            }
+        }
+    }
     let mut health_errors: Vec<String> = Vec::new();
     for c in &report.required_classes {
         if report.result.stats.classes.get(*c).copied().unwrap_or(0) == 0 {
@@ -126,7 +154,7 @@ fn main() {
 
     // Other build configurations this property is also decided in.
     let mut failures = distinct_failures(&report.result.failures);
-    let mut builds = vec![json!({"build": ctx.build, "evaluations": report.result.stats.evaluations, "distinct_nontrivial": report.result.stats.nontrivial.len()})];
+    let mut builds = vec![json!({"build": ctx.build, "evaluations": report.result.stats.evaluations, "distinct_nontrivial": report.result.stats.distinct_nontrivial()})];
     for (build, var) in [("checked-pext", "VCHECK_BIN_PEXT"), ("unchecked", "VCHECK_BIN_UNCHECKED")] {
         if !props::builds_for(id, tier).contains(&build) {
             continue;
@@ -192,7 +220,7 @@ fn main() {
         tier.name(),
         seed,
         st.evaluations,
-        st.nontrivial.len(),
+        st.distinct_nontrivial(),
         report.started.elapsed().as_secs_f64()
     );
     for (i, f) in violations.iter().enumerate() {
